@@ -119,7 +119,12 @@ func goroutineJoin(c *Ctx) {
 	// in start: each go statement is preceded (dominated) by its own Add on grp
 	var gos []*ssa.Go
 	var adds []ssa.CallInstruction
-	for _, call := range ir.Calls(r.Start) {
+	startCalls := ir.Calls(r.Start)
+	if r.Launcher != nil {
+		// the go statement and its Add live in the helper start calls once per goroutine
+		startCalls = append(startCalls, ir.Calls(r.Launcher)...)
+	}
+	for _, call := range startCalls {
 		if g, ok := call.(*ssa.Go); ok {
 			gos = append(gos, g)
 		}
